@@ -10,6 +10,8 @@ CONSTANTS
   Emit = FALSE
   CharSigned = TRUE
   EUSuffixed = {}
+  GenClasses = {"scalar", "array", "bitfield", "nested", "anon", "alignas", "flex"}
+  GenPacked = TRUE
   CheckSim = FALSE
   MaxParams = 0
   MaxExtra = 0
